@@ -137,6 +137,33 @@ def control_l1(rep, tier):
     rep.check(("Pair.a", "Pair.b") in edges and not any(e == ("Pair.b", "Pair.b") for e in edges), "CTRL", "L1-negative:sequential-locks-make-no-edge", "fixtures/src/lib.rs", "sequential (non-nested) acquisitions add no spurious self edge on Pair.b", "spurious edges in the fixture: %s" % sorted(set(edges)))
 
 
+def control_pn1(rep, tier):
+    """the interval analysis behind PN1 (mirq/ranges.py) must leave the fixture's unguarded
+    division / index / subtraction and the off-by-one clamp undischarged, and must discharge the
+    guarded twins (otherwise PN1 would either pass vacuously or alarm on guarded code)"""
+    from mirq.ranges import ranges_of
+    prog = fixture_program()
+    want = {"pn1_div_unguarded": False, "pn1_div_guarded": True, "pn1_index_unguarded": False, "pn1_index_clamped": True,
+            "pn1_index_off_by_one": False, "pn1_sub_unguarded": False, "pn1_sub_guarded": True,
+            "pn1_stale_guard": False, "pn1_fresh_guard": True}
+    for name, discharged in sorted(want.items()):
+        bs = [b for b in prog.bodies if b.path.split("::")[-1] == name]
+        if len(bs) != 1:
+            rep.bad("CTRL", "PN1-control:%s" % name, "fixtures/src/lib.rs", "fixture function %s not found" % name)
+            continue
+        b = bs[0]
+        rg = ranges_of(prog, b)
+        st = []
+        for bi in prog.cfg(b).nodes():
+            t = b.blocks[bi]["term"]
+            if t["k"] == "assert" and not t.get("msg", "").startswith("Overflow(Add"):
+                st.append(rg.assert_status(bi))
+        ok = bool(st) and (all(x in ("holds", "dead") for x in st) if discharged else any(x == "unknown" for x in st))
+        rep.check(ok, "CTRL", "PN1-%s:%s" % ("discharges" if discharged else "keeps", name), "fixtures/src/lib.rs",
+                  "%s: compiler checks %s" % (name, st), "%s: expected the checks to be %s, got %s" % (name, "discharged" if discharged else "kept", st))
+
+
 def attach(PROPS):
+    PROPS["C01"]["controls"] = [("CTRL", control_pn1)]
     PROPS["C19"]["controls"] = [("CTRL", control_in1)]
     PROPS["C13"]["controls"] = [("CTRL", control_l1)]
